@@ -36,3 +36,10 @@ Example C04_ex_strict :
   | None => false
   end = true.
 Proof. vm_compute. reflexivity. Qed.
+(* F34: only optional whitespace (SP / HTAB) is removed in front of a value; a form feed there is part of the value *)
+Example C04_ex_formfeed_kept :
+  match parse_request (bs "GET / HTTP/1.1" ++ [x0d;x0a] ++ bs "X: " ++ [x09; x0c] ++ bs "v" ++ [x0d;x0a;x0d;x0a]) with
+  | Ok r => stored (q_hdrs r)
+  | _ => []
+  end = [(bs "X", x0c :: bs "v")].
+Proof. vm_compute. reflexivity. Qed.
